@@ -168,6 +168,38 @@ def h_illegal(params, name: str):
     require(got == want, "wrong answer after replacing an illegal Files value", globs=legal, name=name, got=got, want=want)
 
 
+def h_build(params, name: str, early: bool, n_lic: int):
+    """Look-ups interleaved with add_files_paragraph/add_license_paragraph on one object."""
+    from debian.copyright import LicenseParagraph
+    assume(len(name) == params["len"])
+    assume(0 <= n_lic <= 1)
+    doc = DOCS[params["doc"]]
+    c = Copyright()
+    if n_lic:
+        c.add_license_paragraph(LicenseParagraph.create(License("L", "text")))
+    if early:
+        require(c.find_files_paragraph(name) is None, "a paragraph was found in a document without Files paragraphs")
+        require(list(c.all_files_paragraphs()) == [], "all_files_paragraphs on an empty document")
+    added = []
+    for i, globs in enumerate(doc):
+        p = _paragraph(globs)
+        c.add_files_paragraph(p)
+        added.append(p)
+        want = None
+        for j, g in enumerate(doc[:i + 1]):
+            if ref_matches(g, name):
+                want = j
+            elif KNOWN_CLASS in params.get("known", []) and in_known_class(g, name):
+                raise Skip("known finding class")
+        got = c.find_files_paragraph(name)
+        require(list(c.all_files_paragraphs()) == added, "all_files_paragraphs after add_files_paragraph")
+        if want is None:
+            require(got is None, "a paragraph was returned although none matches", name=name, step=i)
+        else:
+            require(got is added[want], "not the last matching paragraph after add_files_paragraph", name=name, step=i, want=want,
+                    got=None if got is None else added.index(got))
+
+
 DOCS = [
     [["*"], ["src/*"], ["src/a?"]],
     [["a*"], ["*b"]],
@@ -350,6 +382,10 @@ def partitions(tier, seed):
                 P.append(dict(name="illegal/case%d/%s/len%d" % (case, "prior" if prior else "fresh", ln), harness="h_illegal",
                               params=dict(case=case, prior=prior, len=ln), budget=60 if q else 600, reach=[],
                               bounds="Files %r queried three times with all names of length %d" % (ILLEGAL[case], ln)))
+    for d in range(len(DOCS)):
+        for ln in ((1,) if q else (0, 1, 2, 3)):
+            P.append(dict(name="build/doc%d/len%d" % (d, ln), harness="h_build", params=dict(doc=d, len=ln), budget=60 if q else 600, reach=[],
+                          bounds="document %d built with add_files_paragraph, look-ups before/after each step, names of length %d" % (d, ln)))
     for d in range(len(DOCS)):
         for ln in ((1, 2) if q else (0, 1, 2, 3, 4, 5)):
             P.append(dict(name="find/doc%d/len%d" % (d, ln), harness="h_find", params=dict(doc=d, len=ln),
